@@ -22,9 +22,13 @@ def classify(pid, report, eng, ops):
     # --- seed (pk-only object) whose many-to-one reference is reassigned, then the OLD parent's collection is
     #     loaded from the database: the load puts the object back into the old parent's collection.
     if mon in ('cachemodel', 'read', 'commit', 'reverse', 'cascade', 'index', 'identity', 'atomic'):
-        # deviation replay: with every handle fully loaded (no pk-only seeds) the report must disappear,
-        # and the history must really have operated on seeds
-        if (eng.counts.get('seed_handles', 0) or det.get('seed_reassigned')) and not _replay_has(eng.spec, ops, key, stop_on_taint=eng.stop_on_taint, force_load=True):
+        # the session must really have reassigned a not-loaded many-to-one reference or deleted an object it did not
+        # have loaded, and the TARGETED deviation replay - the same history in which exactly those objects are loaded
+        # right before exactly those operations, nothing else - must not produce the report.  (Loading every handle
+        # would make any other defect that needs a pk-only object disappear as well, and hide it behind this id.)
+        if (det.get('seed_reassigned') or det.get('seed_deleted')) and \
+                not _replay_has(eng.spec, ops, key, stop_on_taint=eng.stop_on_taint, force_load='targeted',
+                                **getattr(eng, 'replay_kw', {})):
             return pid + '-UNLOADED-SEED-REVERSE-NOT-MAINTAINED'
 
         # an object deleted (directly or by cascade) while the session only had it as a pk-only seed / not loaded
